@@ -53,9 +53,17 @@ inductive ConnectOutcome where
   | incorrectPassword
 deriving Repr, DecidableEq
 
+/-- GHOST: which call site wrote the bytes (a request may itself consist of the bytes `idle\n`) -/
+inductive WKind where
+  | password
+  | idle
+  | noidle
+  | request (id : Nat)
+deriving Repr, DecidableEq
+
 /-- observable events, in the order they happen -/
 inductive Obs where
-  | wrote (b : Bytes)                          -- bytes handed to the transport
+  | wrote (b : Bytes) (k : WKind)              -- bytes handed to the transport (+ ghost: by whom)
   | resolved (id : Nat) (r : Reply)            -- a responder was answered / dropped
   | event (name : Bytes)                       -- ConnectionEvent::SubsystemChange(name)
   | closing (e : Option ProtoErr)              -- ConnectionEvent::ConnectionClosed(Protocol e | InvalidResponse = none)
@@ -100,9 +108,9 @@ def TIMEOUT_MS : Nat := 100
 def emit (s : St) (o : Obs) : St := { s with obs := s.obs ++ [o] }
 
 /-- `write_all`: `none` if the transport accepted the bytes, `some k` for the persistent fault -/
-def write (s : St) (b : Bytes) : St × Option Nat :=
+def write (s : St) (b : Bytes) (k : WKind) : St × Option Nat :=
   match s.werr with
-  | none => (emit s (.wrote b), none)
+  | none => (emit s (.wrote b k), none)
   | some k => (s, some k)
 
 /-- the loop returns: `State` is dropped — queued responders, the event sender, the transport -/
@@ -172,13 +180,13 @@ def afterReply (s : St) (deadline : Nat) : St :=
   match s.queue with
   | r :: q =>
     let s := { s with queue := q }
-    match write s r.bytes with
+    match write s r.bytes (.request r.id) with
     | (s, none) => { s with pc := .waiting r s.bstash, fresh := true }
     | (s, some k) => exitLoop (emit s (.resolved r.id (.protocol (.io k))))
   | [] =>
     if s.senders = 0 then exitLoop s
     else if s.now ≥ deadline then
-      match write s IDLE with
+      match write s IDLE .idle with
       | (s, none) => { s with pc := .idling s.bstash, fresh := true }
       | (s, some k) => exitLoop (emit s (.closing (some (.io k))))
     else { s with pc := .waitNext deadline, fresh := false }
@@ -189,7 +197,7 @@ def startCancel (s : St) : St :=
   | [] => exitLoop s                     -- `commands.recv()` returned None: all handles dropped
   | r :: q =>
     let s := { s with queue := q }
-    match write s NOIDLE with
+    match write s NOIDLE .noidle with
     | (s, none) => { s with pc := .cancelWait r s.bstash, fresh := true }
     | (s, some k) => exitLoop (emit s (.resolved r.id (.protocol (.io k))))
 
@@ -198,7 +206,7 @@ def idleResponse (s : St) (r : Response) : St :=
   match intoSingleFrame r with
   | some (.ok f) =>
     let s := emitEvents s f
-    match write s IDLE with
+    match write s IDLE .idle with
     | (s, none) => { s with pc := .idling s.bstash, fresh := true }
     | (s, some k) => exitLoop (emit s (.closing (some (.io k))))
   | some (.error _) => exitLoop (emit s (.closing none))
@@ -227,7 +235,7 @@ def step (s : St) (recvFirst : Bool) : Option St :=
         match s.password with
         | none => some (emit { s with pc := .spawned } (.connected (.ok v)))
         | some pw =>
-          match write s pw with
+          match write s pw .password with
           | (s, none) => some { s with pc := .pwWait .initial, fresh := true }
           | (s, some k) => some (failConnect s (.protocol (.io k)))
       | .incomplete => some { s with buf := data, avail := [] }
@@ -244,7 +252,7 @@ def step (s : St) (recvFirst : Bool) : Option St :=
       | .clean => some (failConnect s (.protocol .unexpectedEof))
       | it => some (failConnect s (.protocol (itemErr it)))
   | .spawned =>
-    match write s IDLE with
+    match write s IDLE .idle with
     | (s, none) => some { s with pc := .idling s.bstash, fresh := true }
     | (s, some k) => some (exitLoop (emit s (.closing (some (.io k)))))
   | .idling σ =>
@@ -273,7 +281,7 @@ def step (s : St) (recvFirst : Bool) : Option St :=
         match intoSingleFrame resp with
         | some (.ok f) =>
           let s := emitEvents s f
-          match write s r.bytes with
+          match write s r.bytes (.request r.id) with
           | (s, none) => some { s with pc := .waiting r s.bstash, fresh := true }
           | (s, some k) => some (exitLoop (emit s (.resolved r.id (.protocol (.io k)))))
         | some (.error _) => some (exitLoop (emit (emit s (.closing none)) (.resolved r.id .closed)))
